@@ -480,9 +480,8 @@ func (c *Core) localDelivery(bp BundleDescriptor) {
 
 	if err := c.agentManager.Deliver(bp); err != nil {
 		log.WithField("bundle", bp.ID()).WithError(err).Warn("Delivering local bundle errored")
-	}
-
-	if bp.MustBundle().PrimaryBlock.BundleControlFlags.Has(bpv7.StatusRequestDelivery) {
+	} else if bp.MustBundle().PrimaryBlock.BundleControlFlags.Has(bpv7.StatusRequestDelivery) {
+		// A delivery must only be reported if the bundle was in fact handed over to an application agent.
 		c.SendStatusReport(bp, bpv7.DeliveredBundle, bpv7.NoInformation)
 	}
 
